@@ -792,9 +792,9 @@ LEVEL_TEXT = ("Proved in Lean 4 about the model that the driver runs against the
               "for byte (also strings that spell numbers), an 'n' column myatof of the number text (decimal comma written and read back), an "
               "'i' column the integer exactly for [-]digits below 2^31, a column whose character matches no case is dropped; csv_header_sniff: "
               "readHeader recognises ',' ';' tab in every header of identifier names (two columns at least unless ','), decimal ',' for ';' files, whatever follows; "
-              "csv_table_roundtrip_typed / csv_table_roundtrip_semicolon / csv_table_roundtrip_tab: WHOLE tables for each of the three separators, written "
+              "csv_table_roundtrip_typed / csv_table_roundtrip_semicolon / csv_table_roundtrip_decimal_comma / csv_table_roundtrip_tab: WHOLE tables for each of the three separators, written "
               "cell by cell after setSeparator / setDecimal and read by a fresh TabularDataFile with readAs (any types, decimal comma included) or without "
-              "(';' with decimal point kept, tab), come back cell for cell; csv_one_column_needs_default_separator: the two-column condition is needed "
+              "(';' with decimal point kept, ';' with setDecimal(','), tab), come back cell for cell; csv_one_column_needs_default_separator: the two-column condition is needed "
               "(witness replayed from corpus/C18/sep.ops); csv_array_rows_any_separator: for every separator and decimal symbol rows handed over as "
               "array Vars write byte for byte the file written cell by cell; (6) csv_number_exact_Q: every number text "
               "[-]digits[.digits][(e|E)[+|-]digits] with at most 18 mantissa digits and 9 exponent digits is accepted by myisnumber, keeps "
@@ -818,8 +818,8 @@ LEVEL_NOTE = ("NO THEOREM covers the '15 significant digits' clause itself: that
               "too, the check sees the defect through the caller's array lengths (lens=) and the missing rows. The \"\\n\" cell that flushes a "
               "short row is in the model and in K but excluded from the theorems (CellWF). The former known finding csv-tiny-number (|x| < ~1e-293 read back wrong) is repaired (7b5df72) and its "
               "witness runs from the corpus; tables written with a non-default separator are proved at the table level for cell-by-cell writing and, "
-              "through csv_array_rows_any_separator (array rows write the same bytes, every separator and decimal symbol), for array rows; UNTYPED reading of a ';' table written with setDecimal(',') is K + python oracle only "
-              "(typed reading of it is proved); one-column tables with a non-default separator are outside (no separator in the file to sniff, "
+              "through csv_array_rows_any_separator (array rows write the same bytes, every separator and decimal symbol), for array rows, the ';' table written with setDecimal(',') included "
+              "(csv_table_roundtrip_decimal_comma, untyped; csv_table_roundtrip_typed, typed); one-column tables with a non-default separator are outside (no separator in the file to sniff, "
               "csv_one_column_needs_default_separator); rows of the typed / separator table theorems must not start with byte 0xEF (BOM test); number texts with more than 18 mantissa or 9 exponent digits overflow in the C code and are "
               "outside theorem and generator. Not modelled: IniFile::section()/arraysize()/array() (deprecated), write(otherName); TabularDataFile ARFF output, "
               "the type character 'h' of readAs() (strtoul base 16, libc; rejected by driver and harness, never generated), flushEvery; readAs() with fewer type characters "
